@@ -12,7 +12,7 @@ URGENT_KINDS = {"Initialize", "Interruption"}
 
 class C01(Prop):
     id = "C01"
-    props_file = "Props/C01.v"
+    props_file = ["Props/C01.v", "Props/C01_Bridge.v"]
     coq_imports = kc.COQ_IMPORTS
     n_quick = 800
     n_thorough = 12000
@@ -22,7 +22,8 @@ class C01(Prop):
                        "{0,1,2,3,1/2,1/4,3/2,1/8} (and negative ones), shared events and timeouts, joins, interrupts, conditions, "
                        "failures, run plans mixing run(), run(until=number/event) and step(); non-trivial = at least 6 processed "
                        "events of which at least 3 at one instant; distinct by hash of the case")
-    trusted_base = ["kernel harness props/kernel_common.py: real generators on the real Environment; env.schedule/env.step wrapped "
+    trusted_base = ["vlib/translate.py (Python ast, fail closed; observation/effect tables in props/kernel_tie.py) regenerates coq/Gen/Extracted_kernel.v from the kernel leaves of the tree under test (Environment.schedule/peek/step, Event.succeed/fail/defused, Timeout/Initialize/Interruption.__init__, Interruption._interrupt, Process.interrupt) before every build; the C01_gen_* theorems (Props/C01_Bridge.v) bridge them to Kernel/Model.v; step()'s heappop try/except, its callback loop and peek()'s try/except are whitelisted as one statement each; Process._resume is not translated",
+                    "kernel harness props/kernel_common.py: real generators on the real Environment; env.schedule/env.step wrapped "
                     "as instance attributes (no change in /repo); events named by creation index",
                     "times are exact: dyadic delays, Python numbers converted with fractions.Fraction; float rounding is outside the theorems",
                     "CPython generator semantics (send/throw/StopIteration) and heapq are modelled, not verified"]
@@ -33,6 +34,13 @@ class C01(Prop):
     partial = []
 
     knobs = {"p_probe": 0.95}
+
+
+    # ---- second tie: the kernel leaves translated from the tree under test before the Coq build (fail closed) ----
+    def pre_build(self):
+        from vlib import framework as fw
+        from props import kernel_tie
+        kernel_tie.write_extracted_kernel(fw.REPO, fw.COQ)
 
     def gen_case(self, rng, tier):
         return kc.gen_case(rng, self.knobs)
